@@ -30,7 +30,17 @@ def seeded():
         how = ', '.join(caught) if caught else '**missed**'
         if missed and caught:
             how += f' (not by {", ".join(missed)})'
-        rows.append(f"| `{m['seed_id']}` | {m['property']} | {m.get('needs_to_manifest', '')[:160]} | {'yes' if m.get('confirmed') else 'no: ' + m.get('confirm_note', 'see meta.json')} | {how} | {wit} |")
+        note = m.get('confirm_note')
+        if not m.get('confirmed') and not note:
+            c = m.get('confirmation', {})
+            su = c.get('suite_with_change', [])
+            bad = [x for x in su if x.get('passed', 0) < 300]
+            if bad and all(r.get('passed') is False for r in c.get('demo_with_change', [{}])) and all(r.get('passed') for r in c.get('demo_without_change', [{}])):
+                what = '; '.join((x['failed_lines'][0] if x.get('failed_lines') else f"hung after {x['passed']} tests") for x in bad)
+                note = f"demo fails with / passes without, but 1 of 2 suite runs did not complete ({what[:70]}): load-dependent upstream tests or a rare hit of the change itself"
+            else:
+                note = 'see meta.json'
+        rows.append(f"| `{m['seed_id']}` | {m['property']} | {m.get('needs_to_manifest', '')[:160]} | {'yes' if m.get('confirmed') else 'no: ' + note} | {how} | {wit} |")
     return '\n'.join(rows)
 
 
